@@ -7,7 +7,7 @@ import time
 
 from ..common import Violation, conclude, seed
 from ..trace import validate
-from .. import trees, lexers, substrate, render_family as rf
+from .. import enc, trees, lexers, substrate, render_family as rf
 
 PROP = 'C20'
 _hdr = re.compile(r'^ID=\d+, log probability=')
@@ -85,7 +85,24 @@ def run(tier):
         real = trees.real_batch(b, rng)
         text, results = rf.read_back(PROP, 'ptb', 'en', real, add, base, reader=read_ptb, suffix='.ptb')
         # incomplete lines must be rejected
-        if text and not probe:
+        if probe and it % 20 == 19:
+            # K04: a prefix that ends inside a word with a round bracket in it can be a complete bracketing of its own
+            # ('(ROOT (N x)[' of the line for the word 'x)[conj]'): the same missing escaping convention as K01, seen from the
+            # side of the incomplete-line clause.  One fixed instance is probed; random truncation leaves such lines alone.
+            from depccg.printer import to_string
+            one = [[trees.leaf(enc.parse_text('N'), {'word': 'x)[conj]'})]]
+            ptext = to_string(trees.real_batch(one, rng), format='ptb')
+            pl = [ln for ln in ptext.split('\n') if ln.startswith('(ROOT')][0]
+            trunc = pl[:pl.index('x)[') + 3]
+            raised = False
+            try:
+                list(read_ptb(rf.write_tmp(trunc + '\n', '.ptb')))
+            except Exception:
+                raised = True
+            add({'e': 'must_raise', 'p': PROP, 'fmt': 'ptb', 'what': 'incomplete_line_not_rejected', 'raised': raised},
+                {'lang': 'en', 'words': [['x)[conj]']], 'fmt': 'ptb', 'text': trunc, 'probe': 'probe:ptb_prefix_ending_inside_a_word_with_a_round_bracket'})
+        has_inner = any(len(w) > 1 and ('(' in w or ')' in w) for ws in base['words'] for w in ws)
+        if text and not probe and not has_inner:
             lines = [ln for ln in text.split('\n') if ln.startswith('(ROOT')]
             ln = rng.choice(lines)
             if len(ln) > 12:
